@@ -81,6 +81,17 @@ pub fn replay(args: &Args) {
                     prefix_law(&mut rep, fname, &key, "Spy<f64>->Vec<f64>/ret", xs.len(), &r2, &|n| xs[..n].to_vec(), v);
                     let r3: Runner = Box::new(|s| bits_of(run_valid::<Option<f64>, _, Option<f64>, Vec<Option<f64>>>(k, &enc_vec::<Option<f64>>(s), w, mp, true)));
                     prefix_law(&mut rep, fname, &key, "Vec<Option<f64>>->Vec<Option<f64>>/to", xs.len(), &r3, &|n| xs[..n].to_vec(), v);
+                    // the series held in a ring buffer whose storage wraps: iterator body and positional reads
+                    let r5: Runner = Box::new(|s| {
+                        let e = enc_vec::<f64>(s);
+                        bits_of(run_valid::<f64, _, f64, Vec<f64>>(k, &crate::roll1::rotated(&e, e.len() / 2 + 1), w, mp, false))
+                    });
+                    prefix_law(&mut rep, fname, &key, "VecDeque<f64>(wrapped)->Vec<f64>/ret", xs.len(), &r5, &|n| xs[..n].to_vec(), v);
+                    let r6: Runner = Box::new(|s| {
+                        let e = enc_vec::<f64>(s);
+                        bits_of(run_valid::<f64, _, f64, Vec<f64>>(k, &crate::roll1::rotated(&e, e.len() / 2 + 1), w, mp, true))
+                    });
+                    prefix_law(&mut rep, fname, &key, "VecDeque<f64>(wrapped)->Vec<f64>/to", xs.len(), &r6, &|n| xs[..n].to_vec(), v);
                     if nullfree && !minmax {
                         let r4: Runner = Box::new(|s| bits_of(run_valid::<i32, _, i32, Vec<i32>>(k, &enc_vec::<i32>(s), w, mp, false)));
                         prefix_law(&mut rep, fname, &key, "Vec<i32>->Vec<i32>/ret", xs.len(), &r4, &|n| xs[..n].to_vec(), v);
@@ -132,6 +143,12 @@ pub fn replay(args: &Args) {
                         bits_of(run_pair::<f64, _, _, f64, Vec<f64>>(k, &enc_vec::<f64>(&x), &enc_vec::<f64>(&y), w, mp, false))
                     });
                     prefix_law(&mut rep, fname, &key, "Vec<f64>x2->Vec<f64>/ret", n, &r, &|m| inter[..2 * m].to_vec(), v);
+                    let r: Runner = Box::new(|s| {
+                        let (x, y) = split(s);
+                        let (ex, ey) = (enc_vec::<f64>(&x), enc_vec::<f64>(&y));
+                        bits_of(run_pair::<f64, _, _, f64, Vec<f64>>(k, &crate::roll1::rotated(&ex, ex.len() / 2 + 1), &crate::roll1::rotated(&ey, 1), w, mp, false))
+                    });
+                    prefix_law(&mut rep, fname, &key, "VecDeque<f64>(wrapped)x2->Vec<f64>/ret", n, &r, &|m| inter[..2 * m].to_vec(), v);
                     let r: Runner = Box::new(|s| {
                         let (x, y) = split(s);
                         bits_of(run_pair::<f64, _, _, f64, Vec<f64>>(k, &Spy::new(1, enc_vec::<f64>(&x)), &Spy::new(2, enc_vec::<f64>(&y)), w, mp, true))
